@@ -325,6 +325,16 @@ def subject_cross(case):
         # a wildcard of one schema document as a restriction of a wildcard of another target namespace (xs:import)
         out['ra'] = bool(a.is_restriction(b))
         out['rb'] = bool(b.is_restriction(a))
+        # union / intersection of a copy of `a` with `b` (an extension across an import combines the wildcards so)
+        import copy as _copy
+        for name, op in (('union', 'union'), ('inter', 'intersection')):
+            w = _copy.copy(a)
+            try:
+                getattr(w, op)(b)
+                out[name] = vec(w)
+            except ValueError:
+                out[name] = 'not-expressible'
+        out['a_after'] = vec(a)
     except Exception as e:  # noqa
         out['exc'] = common.exc_class(e)
     return out
@@ -332,6 +342,7 @@ def subject_cross(case):
 
 def check_cross(ctx, cases):
     impl = common.pool_map(subject_cross, cases)
+    suspects = []
     terms = []
     for c in cases:
         fs = forms(c['version'] == '1.1')
@@ -357,6 +368,19 @@ def check_cross(ctx, cases):
             problems.append(('aux', 'model/implementation differ on restriction across target namespaces: impl=%s model=%s'
                              % ((o.get('ra'), o.get('rb')), m[2:])))
         sa, sb = form_set_tns(fa, TNS), form_set_tns(fb, ANS)
+        combo = []
+        if isinstance(o.get('union'), list) and o['union'] != [x or y for x, y in zip(sa, sb)]:
+            combo.append(('primary', 'the union admits %s, the two wildcards together admit %s'
+                          % ([u for u, x in zip(UNIVERSE, o['union']) if x], [u for u, x, y in zip(UNIVERSE, sa, sb) if x or y])))
+        if isinstance(o.get('inter'), list) and o['inter'] != [x and y for x, y in zip(sa, sb)]:
+            combo.append(('primary', 'the intersection admits %s, both wildcards admit %s'
+                          % ([u for u, x in zip(UNIVERSE, o['inter']) if x], [u for u, x, y in zip(UNIVERSE, sa, sb) if x and y])))
+        if combo:
+            # F-C16a: a ##other operand keeps its token in the result, which is then read with the target namespace of the
+            # receiving wildcard; identified by the ##other operand and by the same result on the pinned snapshot
+            suspects.append((c, o, combo, base))
+        if o.get('a_after') is not None and o['a_after'] != sa:
+            problems.append(('primary', 'combining a copy changed the operand itself'))
         for name, v, d, bse in (('a.is_restriction(b)', o.get('ra'), sa, sb), ('b.is_restriction(a)', o.get('rb'), sb, sa)):
             if v and not all(y for x, y in zip(d, bse) if x):
                 extra = [u for u, x, y in zip(UNIVERSE, d, bse) if x and not y]
@@ -366,6 +390,15 @@ def check_cross(ctx, cases):
             ctx.violation('element wildcards %s (target namespace %s) and %s (target namespace %s), XSD %s: %s'
                           % (base['fa'], TNS, base['fb'], ANS, c['version'], '; '.join(p[1] for p in (prim or problems))),
                           dict(base, theorem='C16_overlap_iff'), no_input=not prim)
+    if suspects:
+        pinned = common.run_pinned('c16', 'subject_cross', [s_[0] for s_ in suspects])
+        for (c, o, combo, base), po in zip(suspects, pinned):
+            if '##other' in base['fa'] + base['fb'] and (po.get('union'), po.get('inter')) == (o.get('union'), o.get('inter')):
+                ctx.known_finding('F-C16a')
+            else:
+                ctx.violation('element wildcards %s (target namespace %s) and %s (target namespace %s), XSD %s: %s'
+                              % (base['fa'], TNS, base['fb'], ANS, c['version'], '; '.join(p[1] for p in combo)),
+                              dict(base, theorem='C16_union / C16_intersection'))
 
 
 # ------------------------------------------------------------------ an attribute group shared by two types
